@@ -7,6 +7,7 @@ package manifest
 import (
 	"bytes"
 	"encoding/json"
+	"errors"
 	"slices"
 )
 
@@ -80,6 +81,10 @@ func (c WildPermissionDescs) MarshalJSON() ([]byte, error) {
 
 // UnmarshalJSON implements the json.Unmarshaler interface.
 func (c *WildStrings) UnmarshalJSON(data []byte) error {
+	// The nil list is the wildcard, null must not turn into it.
+	if bytes.Equal(data, []byte("null")) {
+		return errors.New("null is neither a list nor a wildcard")
+	}
 	if !bytes.Equal(data, []byte(`"*"`)) {
 		ss := []string{}
 		if err := json.Unmarshal(data, &ss); err != nil {
